@@ -7,6 +7,7 @@ import sys
 import time
 
 VERIF = os.path.dirname(os.path.dirname(os.path.abspath(__file__)))
+REPO = os.environ.get("VERIF_REPO") or os.environ.get("VP_RUN_REPO") or "/repo"
 SEEDED = os.path.join(VERIF, "seeded")
 
 
@@ -15,8 +16,8 @@ def sh(cmd, cwd=None):
 
 
 def run(ids=None):
-    if sh("git status --porcelain -- src", cwd="/repo").stdout.strip():
-        print("/repo has uncommitted changes under src: refusing to apply seeds")
+    if sh("git status --porcelain -- src", cwd=REPO).stdout.strip():
+        print("%s has uncommitted changes under src: refusing to apply seeds" % REPO)
         return 2
     ids = ids or sorted(d for d in os.listdir(SEEDED) if os.path.isdir(os.path.join(SEEDED, d)))
     res_path = os.path.join(SEEDED, "RESULTS.json")
@@ -26,7 +27,7 @@ def run(ids=None):
         d = os.path.join(SEEDED, sid)
         meta = json.load(open(os.path.join(d, "meta.json")))
         props = [meta["breaks_property"]] + meta.get("also_check", [])
-        a = sh("git apply %s" % os.path.join(d, "patch.diff"), cwd="/repo")
+        a = sh("git apply %s" % os.path.join(d, "patch.diff"), cwd=REPO)
         if a.returncode != 0:
             print("%s: patch does not apply: %s" % (sid, a.stdout[-200:]))
             results[sid] = {"applies": False}
@@ -45,7 +46,7 @@ def run(ids=None):
                 if caught_by:
                     break
         finally:
-            sh("git checkout -- .", cwd="/repo")
+            sh("git checkout -- .", cwd=REPO)
         results[sid] = {"applies": True, "caught_by": caught_by, "first_lines": lines}
         if not caught_by:
             missed += 1
